@@ -64,4 +64,10 @@ PROPS = {
         "need_tags": ["chain/exh1", "chain/exh2", "chain/conform", "chain/deviate", "chain/policy-place", "chain/hook-fails", "chain/hook-breaks", "time/dlg", "time/inv", "time/stage", "chain/empty"],
         "trusted": ["the loader is an arbitrary partial function from CIDs to delegations (an in-memory map in the harness)", "wall-clock instants are compared with a 60 s slack: bounds are placed at least 1 h from the instant of the check; exact instants go through the verif hook VerifTimeBoundAt", "did.DID equality is modelled as equality of the printed did:key strings"],
     },
+    "C14": {
+        "engines": ["selparse", "policyipld", "policy"],
+        "rule": "selparse: every string of length <=5 (quick) / <=7 (thorough) over {. [ ] \" ? \\ : - 0 a} prefixed with '.', a corpus of boundary texts (unterminated quotes, empty field, 2^53 bounds, overflow), seeded random concatenations of 20 segment texts with one character deleted/inserted/replaced; observable = rejected | (segments through the accessors, String(), re-parse of String() gives the same segments). policyipld: seeded random IPLD nodes offered as policies (every operator, nested to depth 3, each shape violation, out-of-range integers); observable = rejected | (ToIPLD node, FromDagJson agrees). policy engine: constructed policies vs their ToIPLD/FromIPLD round trip, verdicts on data",
+        "need_tags": ["selparse/exh", "selparse/corpus", "selparse/rnd", "polipld/rnd", "polipld/corpus", "pol/ipld-rt"],
+        "trusted": ["\\p{L} in field names and Go regexp semantics are modelled on ASCII only; generators keep unquoted field names ASCII"],
+    },
 }
